@@ -439,6 +439,18 @@ PROPS = {
     },
     "C06": {
         "units": ["codec"],
+        "reference_identity": {
+            "ref": "contracts/reference/src_v0.6.2_full/src",
+            "expected_changed": ["core/cell.rs::cell_to_boundary", "core/cell.rs::cell_to_lonlat", "core/cell.rs::lonlat_to_cell",
+                                 "core/cell_info.rs::get_num_cells", "core/compact.rs::compact", "core/compact.rs::uncompact",
+                                 "core/compact.rs::scan_key", "core/coordinate_transforms.rs::to_spherical",
+                                 "core/serialization.rs::cell_to_children", "core/serialization.rs::cell_to_parent",
+                                 "core/serialization.rs::serialize"],
+            "what": "functions whose text (comments and white space aside) equals the frozen copy of the reference release behave as in "
+                    "the reference release for every input, by identity; those that differ are carried by the harnesses / bounded "
+                    "stand-ins only. expected_changed = the functions touched by the recorded fix: commits. Informational: never "
+                    "changes the exit code",
+        },
         "rlimit": 30,
         "kani": [K1, K4] + K3 + K6,
         "kani_jobs": 14,
